@@ -4,6 +4,10 @@ import vf, progfam
 
 OWNED = {'roundtrip'}
 
+def sig(f, beh):
+    d = f['detail']
+    return 'roundtrip|%s|%s|%s' % (d.get('variant', ''), d.get('why', ''), progfam.prog_text(beh))
+
 def main(tier):
     chk = vf.Check('C08', tier, 'exploration')
     vf.build('seq')
@@ -11,11 +15,11 @@ def main(tier):
     total = nontriv = 0
     num = 80 if tier == 'quick' else 1500
     sbehs, r = progfam.generate('GenC05sim.cfg', simulate=num, timeout=3000)
-    n, nt = progfam.replay(chk, sbehs, 2, ['--roundtrip'], OWNED, tag='sim', jobs=12)
+    n, nt = progfam.replay(chk, sbehs, 2, ['--roundtrip'], OWNED, tag='sim', jobs=12, sig_of=sig)
     total += n; nontriv += nt
     behs, r = progfam.generate('GenC02pairs.cfg')
     sub = behs if tier == 'thorough' else behs[vf.seed() % 3::3]
-    n, nt = progfam.replay(chk, sub, 1, ['--roundtrip'], OWNED, tag='pairs', jobs=12)
+    n, nt = progfam.replay(chk, sub, 1, ['--roundtrip'], OWNED, tag='pairs', jobs=12, sig_of=sig)
     total += n; nontriv += nt
     chk.coverage.update({
         'evaluations': total, 'distinct_nontrivial': nontriv,
